@@ -113,13 +113,39 @@ namespace rkverif {
       rkcommon::tasking::detail::AsyncTaskImpl<std::function<void()>> impl;
     };
 
+    // a task handle whose destructor does NOT wait (independent of what rkcommon's AsyncTaskImpl does in its destructor)
+    template <typename TASK_T>
+    struct BareStarter
+    {
+      BareStarter(TASK_T &&fcn) : task(std::forward<TASK_T>(fcn))
+      {
+        rkcommon::tasking::detail::scheduleTaskInternal(&task);
+      }
+      void wait()
+      {
+        rkcommon::tasking::detail::waitInternal(&task);
+      }
+
+     private:
+      struct LocalTask : public enki::ITaskSet
+      {
+        TASK_T t;
+        LocalTask(TASK_T &&fcn) : t(std::forward<TASK_T>(fcn)) {}
+        void ExecuteRange(enki::TaskSetPartition, uint32_t) override
+        {
+          t();
+        }
+      };
+      LocalTask task;
+    };
+
     struct NeverWaits
     {
       NeverWaits() : impl([this]() { result = std::string("done"); done = true; }) {}
       ~NeverWaits() {}
       std::atomic<bool> done{false};
       std::string result;
-      rkcommon::tasking::detail::AsyncTaskImpl<std::function<void()>> impl;
+      BareStarter<std::function<void()>> impl;
     };
 
     // ---- R-C02-6 (iv): a task may become reachable by a completion-guarded delete only after it was scheduled
